@@ -72,7 +72,7 @@ func checkC19(c *Ctx) {
 		// globals matched must be plausible (errors by role): report them
 		var gl []string
 		for a, b := range ic.globals {
-			gl = append(gl, a.Name()+"~"+b.Pkg.Pkg.Name()+"."+b.Name())
+			gl = append(gl, nm(a)+"~"+nm(b.Pkg.Pkg)+"."+nm(b))
 		}
 		sort.Strings(gl)
 		r.Extra["matched_package_variables"] = gl
